@@ -49,4 +49,17 @@ CHECKS = {
             dict(name="submount", run="^TestSubMount$", quick=100, thorough=600, shards=2),
         ],
     ),
+    "C05": dict(
+        pkg="c05", level="exploration",
+        rule=("rapid state machine over the C01 alphabet; every FAILING FS-level call is made on the subject and, with the raw os package, on a tmpfs twin tree; the library error must be "
+              "*PathError (single-name ops) / *LinkError (rename, symlink), its path fields must equal the path the os error names expressed relative to the root ('.' for the root, never empty/absolute/inner), "
+              "and must match every sentinel (NotExist, Exist, IsDir, NotDir, NotEmpty, Invalid, Closed) the os error matches; an unsupported operation must be a typed ErrNotImplemented naming the caller's path. "
+              "Subjects: mem, keyvalue over plain store, os.FS under 1..3 Sub roots, mount.FS with 0/1/2 (nested) mounts, Sub(mem), Sub(Sub(mem)), Sub(mount FS at a mount point); read-only layers (cache, tar) in the layered leg. "
+              "non-trivial = a failing call with a path of >=2 elements (through >=1 layer for layered subjects) or a failing MkdirAll/RemoveAll of depth >=2"),
+        assumptions=[OS_ASSUMPTION, "Op strings are not compared", "operations that remove/rename a mount point, an ancestor of one, or rename across mounts are not generated (their meaning differs from a single os tree; C06 covers them)",
+                     "a history ends silently when success differs between subject and os (that is C01/C06/C07's subject)"],
+        legs=[dict(name=k, run="^Test%s$" % n, quick=q, thorough=q * 20, shards=4) for (k, n, q) in [
+            ("mem", "Mem", 250), ("kvplain", "KVPlain", 150), ("osfs", "OSFS", 120), ("ossub2", "OSSub2", 80), ("ossub3", "OSSub3", 80),
+            ("mount0", "Mount0", 100), ("mount1", "Mount1", 200), ("mount2", "Mount2", 200), ("submem", "SubMem", 150), ("subsub", "SubSub", 100), ("submountpt", "SubMountPt", 100)]],
+    ),
 }
